@@ -839,16 +839,16 @@ theorem key_has_is_by_component :
 section Applied
 open GoblVerif.Generated.RefsFacts
 
-/-- bill.Invoice validates `$tags` with `tax.TagsIn` over its `supportedTags`; Order and
-    Payment have no rule that mentions the field, Delivery lists the embedded `tax.Tags`
-    struct without a rule: `tagCheckedSchemas` is what the code does -/
+/-- bill.Invoice validates `$tags` with `tax.TagsIn` over its `supportedTags`; Order, Delivery
+    and Payment hold the list to the key syntax only (a rule without arguments on `Tags.List`,
+    since /repo 6a2cb4a) and never call `TagsIn`: `tagCheckedSchemas` is what the code does -/
 theorem tags_rule_applied_by_invoices_only :
     ("Tags.List", ["tax.TagsIn(inv.supportedTags()...)"]) ∈ rules_Invoice_ValidateWithContext ∧
     "TagsIn" ∉ calls_Order_ValidateWithContext ∧ "TagsIn" ∉ calls_Delivery_ValidateWithContext ∧
     "TagsIn" ∉ calls_Payment_ValidateWithContext ∧
-    ((rules_Order_ValidateWithContext.map (·.1)).filter (fun f => f == "Tags" || f == "Tags.List")) = [] ∧
-    ((rules_Payment_ValidateWithContext.map (·.1)).filter (fun f => f == "Tags" || f == "Tags.List")) = [] ∧
-    (rules_Delivery_ValidateWithContext.filter (fun r => r.1 == "Tags" || r.1 == "Tags.List")) = [("Tags", [])] := by
+    (rules_Order_ValidateWithContext.filter (fun r => r.1 == "Tags" || r.1 == "Tags.List")) = [("Tags.List", [])] ∧
+    (rules_Payment_ValidateWithContext.filter (fun r => r.1 == "Tags" || r.1 == "Tags.List")) = [("Tags.List", [])] ∧
+    (rules_Delivery_ValidateWithContext.filter (fun r => r.1 == "Tags" || r.1 == "Tags.List")) = [("Tags.List", [])] := by
   decide +kernel
 
 /-- `(*Invoice).supportedTags`: the regime's tag set, then each addon's, merged, then the
